@@ -60,6 +60,11 @@ TARGETS = {
              ("src/storage/core.rs", "close_active_blob")],
     "C14c": [("src/blob/core.rs", "open_new"), ("src/storage/core.rs", "create_active_blob")],
     "C15c": [("src/storage/core.rs", "records_count"), ("src/storage/core.rs", "records_count_detailed"), ("src/storage/core.rs", "blobs_count"), ("src/storage/core.rs", "max_id")],
+    # fourth batch: the whole filter hierarchy + blob read helpers
+    "C10d": [("src/filter/hierarchical.rs", f) for f in ("parent_id", "add_to_filter", "merge_filters", "check_filter_fast", "from_vec", "get_filter_from_child", "add_child",
+                                                        "last_inner_node", "add_to_parents", "add_filter_from_cow", "init_filter_from_cow", "new_inner_node", "pop", "remove",
+                                                        "last_id", "last", "get_child", "get_child_mut", "new", "len", "next")],
+    "C02d": [("src/blob/core.rs", "get_entry_with_meta"), ("src/blob/core.rs", "filter_entries"), ("src/blob/core.rs", "get_latest_entry")],
     "C16": [("src/tools/blob_reader.rs", "read_single_record"), ("src/tools/blob_reader.rs", "read_record"), ("src/tools/blob_reader.rs", "is_eof"),
             ("src/tools/utils.rs", "process_blob_with"), ("src/tools/validation.rs", "validate_blob"), ("src/tools/blob_writer.rs", "write_record")],
 }
@@ -132,7 +137,7 @@ def run_one(mt, crate_cache={}):
     crate = P.Crate(open(os.path.join(work, "pearl.mir")).read(), src)
     out = {}
     verdict = "missed"
-    for o in props.PROPS[mt["pid"].rstrip("bc")].get("mir", []):
+    for o in props.PROPS[mt["pid"].rstrip("bcd")].get("mir", []):
         if o.get("tier", "quick") != "quick":
             continue
         kw = dict(o.get("kwargs", {}))
